@@ -76,6 +76,11 @@ func evalC07Bytes(c c07Bytes, o *Obs) error {
 var kC07Bytes = register(&Kind[c07Bytes]{
 	Prop: "C07", Name: "b58bytes",
 	Gen: func(t *rapid.T) c07Bytes {
+		if rapid.IntRange(0, 2).Draw(t, "structured") == 0 {
+			// the number written in base 58 has structure: groups of 5 / 6 / 10 digits that are all '1' (zero), all
+			// 'z', one off, or random - the places where limb-wise converters carry, borrow and pad
+			return c07Bytes{B: func() []byte { b, _ := refB58Decode(genB58Structured(t, "sb")); return b }(), Spare: rapid.IntRange(0, 8).Draw(t, "spare")}
+		}
 		return c07Bytes{B: genBytes(t, "b", 0, 512), Spare: rapid.IntRange(0, 40).Draw(t, "spare")}
 	},
 	Eval: evalC07Bytes,
@@ -113,7 +118,35 @@ func evalC07Str(c c07Str, o *Obs) error {
 	return nil
 }
 
+// genB58Structured draws a Base58 string made of digit groups of one width (5, 6 or 10): each group is all '1',
+// all 'z', 'zzz..y', '111..2', a power-of-two limb boundary in base 58, or random; optionally a short ragged head.
+func genB58Structured(t *rapid.T, label string) string {
+	g := rapid.SampledFrom([]int{5, 5, 6, 10}).Draw(t, label+"_g")
+	var sb strings.Builder
+	sb.WriteString(rapid.SampledFrom([]string{"", "", "2", "z", "5Q", "zz", "JPwcyD", "7YXq9G"}).Draw(t, label+"_head")) // JPwcyD = 58^5 area, 7YXq9G = 2^32
+	for n := rapid.IntRange(1, 12).Draw(t, label+"_n"); n > 0; n-- {
+		switch rapid.IntRange(0, 6).Draw(t, label+"_gv") {
+		case 0, 1:
+			sb.WriteString(strings.Repeat("1", g))
+		case 2, 3:
+			sb.WriteString(strings.Repeat("z", g))
+		case 4:
+			sb.WriteString(strings.Repeat("z", g-1) + "y")
+		case 5:
+			sb.WriteString(strings.Repeat("1", g-1) + "2")
+		default:
+			for i := 0; i < g; i++ {
+				sb.WriteByte(b58Alphabet[rapid.IntRange(0, 57).Draw(t, label+"_c")])
+			}
+		}
+	}
+	return sb.String()
+}
+
 func genB58String(t *rapid.T, label string, max int) string {
+	if rapid.IntRange(0, 3).Draw(t, label+"_structured") == 0 {
+		return genB58Structured(t, label)
+	}
 	n := rapid.IntRange(0, max).Draw(t, label+"_len")
 	ones := 0
 	if rapid.IntRange(0, 2).Draw(t, label+"_lead") == 0 {
